@@ -135,6 +135,22 @@ def opDepth (cfg : Cfg) (preNames : Names) (op : String) (linked : Bool) (root :
   | "append_inner" | "append_top" | "move_subtree" => some (appendDepth idTest l fresh false)
   | "insert0_top" | "insert0_root" => some (insertDepth idTest l [fresh, s] false)
   | "extend_mid" => some (extendDepth idTest l [s, fresh, s])
+  | "nc_extend_tag" => some (extendDepth idTest l [l, l])
+  | "str_extract" | "str_decompose" => some (decomposeDepth idTest l)
+  | "str_replace_with" => some (replaceWithDepth idTest parent l [s, fresh])
+  | "str_insert_before" | "str_insert_after" => some (insertBesideDepth idTest parent l [s])
+  | "str_wrap" => some (wrapDepth idTest parent l fresh)
+  | "str_find_parents" | "str_find_all_previous" => some (findAxisDepth cfg { q0 with name := some 1 } allNodes)
+  | "str_find_parent" | "str_find_next" => some (call (findAxisDepth cfg { q0 with name := some 99 } allNodes))
+  | "str_get_text" => some (getTextDepth l)
+  | "str_output_ready" => some (call (call (formatterForNameDepth cfg l)))
+  | "str_copy" => some (call (call cStrNew))
+  | "after_move_decode" => some (max (appendDepth idTest l fresh false) (max (decodeDepth cfg l) (getTextDepth l)))
+  | "after_wrap_decode" => some (max (wrapDepth idTest parent l fresh) (max (prettifyDepth cfg l) (findAllDepth cfg { q0 with name := some 1, str := true } l)))
+  | "after_unwrap_copy" => some (max (unwrapDepth idTest parent l) (copyDepth cfg false l))
+  | "after_replace_decode" => some (max (replaceWithDepth idTest parent l [l]) (max (decodeDepth cfg l) (smoothDepth cfg l)))
+  | "api_build" => some (max (appendDepth idTest l fresh false) (call cTagInit))
+  | "doc_pickle_proto2" => some (pickleDepth cfg preNames big linked (feedState preNames big evs) l)
   | "index" | "tw_index" | "tw_index_last" => some (indexDepth idTest (kidsOf l.node) l.node)
   -- an argument that is a near copy of the receiver is, for the accounting, just another element: identity tests only
   | "nc_replace_with" | "nc_replace_with_exact" | "nc_replace_with_top" | "nc_replace_with_parentcopy"
